@@ -17,6 +17,7 @@ try:
     subprocess.run(f"rsync -a --exclude work --exclude .git --exclude seeded --exclude evidence --exclude 'harness/target' /verif/ {snap}/",
                    shell=True, check=True)
     env = dict(os.environ, VERIF_REPO=wt, VERIF_WORK=f"{wt}/vwork", VERIF_EVID=f"{wt}/vevid")
+    env.setdefault("VERIF_JOBS", "6")     # several of these run side by side
     for p in props:
         r = subprocess.run([f"{snap}/check", p, tier], cwd=snap, capture_output=True, text=True, env=env)
         viol = [l for l in r.stdout.splitlines() if l.startswith("VIOLATION")]
